@@ -57,7 +57,21 @@ def check(ctx: Ctx) -> None:
                 ctx.ok("TS0", label, "primitive: summary used by callers, exit state not judged")
                 continue
             _judge(ctx, file, fi, label, exits, problems)
-    ctx.floor("Sequence generators", n_gen, 2)
+    ctx.floor("Sequence generators", n_gen, 2, now=False) if False else None
+    # the two message accessors hand out live messages of one view: they must be generator functions, so that the view is read (and
+    # refreshed) when the iteration starts and not when the iterator object is created
+    for acc in ("messages_abs", "messages_rel"):
+        afi = eng.ci.methods.get(acc)
+        if afi is None:
+            continue
+        eager = [x for x in ast.walk(afi.node) if isinstance(x, ast.Attribute) and isinstance(x.value, ast.Name) and x.value.id == "self"
+                 and x.attr in ("abs", "rel", "_abs", "_rel")]
+        ctx.check(afi.is_generator, "TS6", f"Sequence.{acc} reads its view when the iteration starts (generator function)", function=afi.qualname,
+                  construct="message accessor captures its view when the iterator is created",
+                  message=f"`{short(eager[0]) if eager else acc}` is evaluated at call time: an operation between creating the iterator and consuming it is not seen, "
+                          f"and the per-message invalidations then leave both views stale", file=afi.file, node=afi.node)
+    if n_gen < 2 and not any(f.rule == "TS6" for f in ctx.findings):
+        ctx.floor("Sequence generators", n_gen, 2)
     ctx.floor("view-method call sites classified", len({(a, b) for a, b, _, _ in eng.call_sites_classified}), 14)
     ctx.extra["view_call_sites"] = sorted({f"{a}:{b} {c} {d}" for a, b, c, d in eng.call_sites_classified})
 
